@@ -74,7 +74,8 @@ let cert_of (tok : string) : cert =
     c_not_before = zi (int_of_string (f 'b' "0"));
     c_not_after = zi (int_of_string (f 'a' "0"));
     c_key = ni (int_of_string (f 'k' "1"));
-    c_sig_ok = (fun k -> g <> 0 && k = ni g);
+    (* octets after the signature value (t > 0): no key verifies it *)
+    c_sig_ok = (fun k -> g <> 0 && int_of_string (f 't' "0") = 0 && k = ni g);
     c_exts = exts }
 
 let list_of (s : string) : cert list = if s = "." then [] else List.map cert_of (split ';' s)
